@@ -93,15 +93,19 @@ static void usage(void)
  */
 static char *replace_str(char *str, char *orig, char *rep)
 {
-  static char buffer[1024];
+  char *buffer;
   char *p;
 
   if(!(p = strstr(str, orig)))
     return str;
 
-  strncpy(buffer, str, p-str);
-  buffer[p-str] = '\0';
+  /* The source can be the result of the previous call and of any length:
+     every result gets a buffer of its own (kept until the program ends). */
+  buffer = malloc(strlen(str) + strlen(rep) + 1);
+  if (buffer == NULL)
+    return str;
 
+  memcpy(buffer, str, p-str);
   sprintf(buffer+(p-str), "%s%s", rep, p+strlen(orig));
 
   return buffer;
